@@ -327,11 +327,26 @@ impl UperWriter {
         if const_map_or!(self.scope, Scope::encode_as_open_type_field, false) {
             let mut writer = UperWriter::with_capacity(512);
             let result = f(&mut writer)?;
-            self.bits
-                .write_octetstring(None, None, false, writer.bits.content())?;
+            self.bits.write_octetstring(
+                None,
+                None,
+                false,
+                Self::open_type_content(writer.bits.content()),
+            )?;
             Ok(result)
         } else {
             f(self)
+        }
+    }
+
+    /// ITU-T X.691 | ISO/IEC 8825-2:2015, chapter 11.2.1: an empty encoding (NULL, empty SEQUENCE)
+    /// as open type consists of a single zero octet
+    #[inline]
+    fn open_type_content(content: &[u8]) -> &[u8] {
+        if content.is_empty() {
+            &[0x00]
+        } else {
+            content
         }
     }
 
@@ -486,8 +501,12 @@ impl Writer for UperWriter {
                 // TODO performance
                 let mut writer = UperWriter::with_capacity(512);
                 choice.write_content(&mut writer)?;
-                w.bits
-                    .write_octetstring(None, None, false, writer.byte_content())
+                w.bits.write_octetstring(
+                    None,
+                    None,
+                    false,
+                    Self::open_type_content(writer.byte_content()),
+                )
             } else {
                 choice.write_content(w)
             }
